@@ -1169,7 +1169,7 @@ class Constructs(mixin.Container, core.Constructs):
                         "arguments are also set"
                     )
             elif "filter_by_identity" in filter_kwargs:
-                identities = filter_kwargs["filter_by_identity"]
+                identities = filter_kwargs.pop("filter_by_identity")
 
         if identities:
             # Make sure that filter_by_identity is the last filter
@@ -1196,10 +1196,12 @@ class Constructs(mixin.Container, core.Constructs):
                 # constructs.
                 keys = (None,)
 
-            filter_kwargs = {
-                "filter_by_key": keys,
-                "todict": filter_kwargs.get("todict", False),
-            }
+            # Select the keys from the domain axis constructs that
+            # also meet any other filter criteria
+            del filter_kwargs["filter_by_identity"]
+            todict = filter_kwargs.pop("todict", False)
+            out = self.filter(filter_by_type=("domain_axis",), **filter_kwargs)
+            return out.filter_by_key(*keys, todict=todict)
 
         return self.filter(filter_by_type=("domain_axis",), **filter_kwargs)
 
